@@ -108,6 +108,8 @@ impl GraphRunner for Graph {
 
     // TODO: fix this so that Drop is run for blocks that EOF.
     fn run(&mut self) -> Result<()> {
+        #[cfg(feature = "verif")]
+        use crate::vsync::stdshim as std;
         let st = Instant::now();
         let start_run_cpu = get_cpu_time();
         self.times
